@@ -7,7 +7,7 @@ package bed
 // read with the build tag "verif".
 
 //@ func reader.read
-//@   props C04 C07 C11 C18
+//@   props C04 C07 C11 C18 C06
 //@   modifies r
 //@   let S := r.r
 //@   let p0 := old(r.r.pos)
@@ -142,7 +142,7 @@ package bed
 //@     invariant !openFails(file) && len(Y) == K && forall t int :: 0 <= t && t < K ==> same(Y[t], ZR[t])
 
 //@ func parseLine
-//@   props C04 C11
+//@   props C04 C11 C06 C07 C18
 //@   let F := old(fields)
 //@   let n := old(len(fields))
 //@   let B := result.0
